@@ -578,7 +578,7 @@ impl Run {
         let h = fnv(&bytes) ^ fnv(check.as_bytes());
         let path = dir.join(format!("{}-{:08x}.json", check, h as u32));
         let j = json!({"property": self.property, "check": check, "seed": self.seed, "bytes": hex(&bytes),
-            "key": fl.key, "message": fl.msg});
+            "key": fl.key, "message": fl.msg, "program": std::env::var("VERIF_PROGRAM").ok()});
         let _ = std::fs::write(&path, serde_json::to_string_pretty(&j).unwrap());
         self.violations.push(Violation { check: check.into(), bytes, msg: fl.msg, key: fl.key, replay: path });
     }
